@@ -499,8 +499,7 @@ def oracle_c18(h):
                 res.append(("poll-did-not-refresh-liveness", "after a pending-list call by its agent, backend %r was last seen %.0f s ago" % (op["backend"], age), _base(h, row)))
         if op["op"] != "ustart" or not op["user"] or op.get("faults") or "gt_backends" not in obs:
             continue
-        if obs.get("outcome") == "returned" and obs.get("resp_tag"):
-            continue   # served from the GET cache after a successful lookup
+        cached = obs.get("outcome") == "returned" and obs.get("resp_tag")   # served from the GET cache: only after a successful lookup
         path = unquote_path(op["url"].split("?")[0])
         gt = obs["gt_backends"]
 
@@ -522,6 +521,11 @@ def oracle_c18(h):
         live = [b["id"] for b in cands if 0 <= b["age_s"] < 300]
         got = obs.get("backend") if obs.get("outcome") == "stored" else None
         rp = dict(_base(h, row), path=path, expected_one_of=live, candidates=[b["id"] for b in cands])
+        if cached:
+            if not live:
+                res.append(("served-from-cache-without-live-backend", "user %r path %r was answered 200 from the response cache although %s" % (
+                    op["user"], path, "no backend matches" if not cands else "the most specific matching backend(s) %s were last seen %s s ago" % ([b["id"] for b in cands], [round(b["age_s"]) for b in cands])), rp))
+            continue
         if got is None:
             if obs.get("status") != 404 and obs.get("outcome") == "returned":
                 res.append(("lookup-failure-not-404", "no backend for %r %r but the answer was %s" % (op["user"], path, obs.get("status")), rp))
